@@ -6,7 +6,7 @@ save=$(mktemp -d); cp -r /verif/evidence "$save/"; cp -r /verif/replays "$save/"
 git -C /repo apply ${SEED_DIR:-/verif/seeded}/$id/patch.diff || { echo "apply failed"; exit 2; }
 for c in "$@"; do
   out=$(./check $c 2>&1); rc=$?
-  echo "seed=$id check=$c rc=$rc"; echo "$out" | grep -E "VIOLATION|PROOF PROBLEM|disagreements" | head -6
+  echo "seed=$id check=$c rc=$rc"; echo "$out" | grep -E "VIOLATION|PROOF PROBLEM" | head -4; echo "$out" | grep -E "[1-9][0-9]* model disagreements" | head -3
 done
 git -C /repo checkout -- .
 rm -rf /verif/evidence /verif/replays; cp -r "$save/evidence" /verif/evidence; cp -r "$save/replays" /verif/replays; rm -rf "$save"
